@@ -249,7 +249,9 @@ func (b *ByteBuffer) ReadByte() (byte, error) {
 // through Reserve.
 func (b *ByteBuffer) ReadFrom(r io.Reader) (int64, error) {
 	n, err := r.Read(b.data[b.wi:cap(b.data)])
-	if err == nil {
+	// A reader may return its last bytes together with the error that follows them (io.Reader; tls.Conn does so for
+	// a close_notify queued behind data): those bytes were read and are part of the write area.
+	if n > 0 {
 		b.wi += n
 		b.data = b.data[:b.wi]
 	}
@@ -273,7 +275,8 @@ func (b *ByteBuffer) UnreadByte() error {
 // through Reserve.
 func (b *ByteBuffer) AsyncReadFrom(r AsyncReader, cb AsyncCallback) {
 	r.AsyncRead(b.data[b.wi:cap(b.data)], func(err error, n int) {
-		if err == nil {
+		// n bytes were read even if an error came with them.
+		if n > 0 {
 			b.wi += n
 			b.data = b.data[:b.wi]
 		}
